@@ -148,6 +148,7 @@ def _run_base(ctx):
 
 
 def run(ctx):
+    ctx.rule('R15.6', 'where Python re-sorts diff entries while applying decisions / flattening string diffs it orders them by key alone (stable), like TS sortByKey/stableSort and TS applyDecisions, which has no re-combination step', floor=2)
     ctx.rule('R15.5', 'the "cleared value" helper maps every JSON kind to the same result kind on both sides (exhaustive over null/boolean/number/string/array/object)', floor=6)
     _run_base(ctx)
     from ..tskind import ts_kind_function, py_kind_function, JSON_KINDS
@@ -169,3 +170,11 @@ def run(ctx):
                  'both sides clear it to the same kind' if ok else
                  'clearing a %s base value gives %s in the browser (arm %s, line %s) but %s on the server: a `clear` decision (conflicting execution_count, outputs, ...) '
                  'is applied differently' % (kind, t, ts_table[kind][1], ts_table[kind][2], '/'.join(p)), None)
+
+    from ..sorts import key_sort_sites, key_function_kind
+    for fid, fn, call, lst, keyfn in key_sort_sites(repo):
+        kind = key_function_kind(keyfn)
+        ctx.inst('R15.6', fid, repo.norm(call), kind == 'key-only',
+                 'ordered by key only; equal keys keep arrival order, as in the browser' if kind == 'key-only' else
+                 'Python breaks ties between entries on the same key with an extra sort criterion; the TypeScript side keeps arrival order '
+                 '(sortByKey is a stable sort by key, applyDecisions applies decisions one by one): both sides order e.g. an addrange and a patch on one line differently', call)
